@@ -21,7 +21,7 @@ Proof.
   apply negb_true_iff in H1. repeat split; assumption.
 Qed.
 
-(** an admitted submission is not expired for the next block, as the sweep of pool entries reads it *)
+(** an accepted submission is not expired for the next block, as the sweep of pool entries reads it *)
 Lemma accepted_unexpired : forall c p s p', good s = true ->
   pipeline c p (STx s) = (R_OK, p') -> sweep_expired c (s_outer s) = false.
 Proof.
@@ -121,10 +121,10 @@ Proof.
   apply D in Hd as [[]|[Hd Hb]]. split; [|exact Hd]. unfold t_blocked. rewrite Hb. reflexivity.
 Qed.
 
-(** every pool entry of a history from the empty mempool was admitted by the pipeline at the
+(** every pool entry of a history from the empty mempool was accepted by the pipeline at the
     header of its time; it came as an EventTx or out of the delay cache; under the guards it was
     acceptable then *)
-Lemma history_entries_admitted : forall sc h0 ops st' lg, hrun sc (mkSt h0 [] []) ops = (st', lg) ->
+Lemma history_entries_via_pipeline : forall sc h0 ops st' lg, hrun sc (mkSt h0 [] []) ops = (st', lg) ->
   forall e, In e (st_pool st') ->
   exists h p s, e = s_outer s /\ In s (subs_of ops)
     /\ pipeline (view sc h) p (STx s) = (R_OK, p ++ [e])
